@@ -66,3 +66,5 @@ def replay(ctx, payload):
     real = R.real_remap(inp["input"], inp["ptx"], inp["bpt"])
     msgs = oracle(inp, real)
     return {"fails": bool(msgs), "oracle": msgs, "real": real}
+
+LEVEL_NOTE = LEVEL_NOTE + " NEW: `deep_map_rearranges` (Properties/C02Deep.lean): maps that cut DEEP inside contigs (> 3·err bases of the shared contig on both sides of every cut, any number of cuts per contig, both strands, untagged class) are remapped to the explicit spec with cuts = incidences − shared contigs, and `deep_cut_position` gives the exact cut coordinate (last sentence of C02); the guards the margin rests on (`trim_large_overhangs` tests, `improves` with the −3·err guard, the `make_fixes` tests) are TRANSLATED from the current source and proved equal to the model's (Properties/C02Source.lean, T1b)"
